@@ -426,3 +426,138 @@ class Dataflow:
                     continue
             out.append("%s %s {%s}" % (s, "in" if v[0] == "in" else "not in", ",".join(str(x) for x in sorted(vals))))
         return "; ".join(out)
+
+
+class DisjFlow(Dataflow):
+    """Disjunctive (trace-partitioned) variant: every block keeps a SET of abstract states instead of their join, so the
+    correlation between a guard and a boolean temporary that was assigned on two branches is not lost
+    (`let gate = match x { Some(k) => a != k, None => false }; if gate {..}` is analysed like the `if let .. &&` form).
+    Assignments of an unknown boolean to a multiply-assigned local split the state on that boolean. Sets larger than CAP
+    collapse to their join (sound, less precise). `edge_sets[(u, v)]` holds the states flowing along each CFG edge."""
+    CAP = 48
+
+    def __init__(self, body, facts=None, removed_nodes=(), removed_edges=()):
+        self.removed_nodes = set(removed_nodes)
+        self.removed_edges = set(removed_edges)
+        self.states = {}
+        self.edge_sets = {}
+        self.collapsed = set()
+        super().__init__(body, facts)
+
+    @staticmethod
+    def _join_all(states):
+        it = iter(states)
+        acc = dict(next(it))
+        for fs in it:
+            d = dict(fs)
+            new = {}
+            for k, v in acc.items():
+                if k in d:
+                    j = vs_join(v, d[k])
+                    if j != TOP:
+                        new[k] = j
+            acc = new
+        return acc
+
+    def _is_multi_def(self, l):
+        return (l > self.b.argc or l == 0) and self.b.single_def(l) is None and len(self.b.defs.get(l, ())) > 1
+
+    def split_stmt(self, st, s):
+        base = self.transfer_stmt(st, s)
+        if s[0] == "A" and not s[1][1] and self._is_multi_def(s[1][0]):
+            l, rv = s[1][0], s[2]
+            key = ("val", (l, ()))
+            e = self.expr_of_rvalue(rv)
+            if e is not None and key not in expr_paths_keys(e):
+                if e[0] == "const":
+                    ns = dict(base)
+                    ns[key] = ("in", frozenset([e[1]]))
+                    return [ns]
+                cur = base.get(e)
+                if cur is not None and cur[0] == "in" and len(cur[1]) == 1:
+                    ns = dict(base)
+                    ns[key] = cur
+                    return [ns]
+                if self.b.local_ty(l) == "bool":
+                    out = []
+                    for v in (0, 1):
+                        ns = self.restrict(base, e, ("in", frozenset([v])))
+                        if ns is not None:
+                            ns = dict(ns)
+                            ns[key] = ("in", frozenset([v]))
+                            out.append(ns)
+                    if out:
+                        return out
+                if cur is not None:
+                    ns = dict(base)
+                    ns[key] = cur
+                    return [ns]
+        return [base]
+
+    def edge_states(self, bb, st):
+        t = self.b.term(bb)
+        if t[0] == "call" and t[4] is not None and not t[3][1] and self._is_multi_def(t[3][0]) and self.b.local_ty(t[3][0]) == "bool":
+            # the call writes a multiply-assigned boolean: remember that it equals this call's result
+            key = ("val", (t[3][0], ()))
+            for succ, ns in super().edge_states(bb, st):
+                for v in (0, 1):
+                    n2 = dict(ns)
+                    n2[key] = ("in", frozenset([v]))
+                    n2[("call", bb)] = ("in", frozenset([v]))
+                    yield succ, n2
+            return
+        yield from super().edge_states(bb, st)
+
+    def run(self):
+        b = self.b
+        empty = frozenset()
+        self.states = {0: {empty}}
+        wl = deque([0])
+        inq = {0}
+        iters = 0
+        while wl:
+            bb = wl.popleft()
+            inq.discard(bb)
+            iters += 1
+            if iters > 100000:
+                raise RuntimeError("disjunctive dataflow did not converge in " + b.path)
+            outs = {}
+            for fs in self.states[bb]:
+                sts = [dict(fs)]
+                for s in b.stmts(bb):
+                    sts = [n for st in sts for n in self.split_stmt(st, s)]
+                for st in sts:
+                    for succ, ns in self.edge_states(bb, st):
+                        if succ in self.removed_nodes or (bb, succ) in self.removed_edges:
+                            continue
+                        outs.setdefault(succ, set()).add(frozenset(ns.items()))
+            for succ, new in outs.items():
+                self.edge_sets[(bb, succ)] = new
+                old = self.states.get(succ, set())
+                if new <= old:
+                    continue
+                merged = old | new
+                if succ in self.collapsed or len(merged) > self.CAP:
+                    self.collapsed.add(succ)
+                    merged = {frozenset(self._join_all(merged).items())}
+                    if merged == old:
+                        continue
+                self.states[succ] = merged
+                if succ not in inq:
+                    inq.add(succ)
+                    wl.append(succ)
+        self.state_in = {bb: self._join_all(s) for bb, s in self.states.items()}
+
+    def states_at(self, bb):
+        return [dict(fs) for fs in self.states.get(bb, ())]
+
+    def states_on_edge(self, u, v):
+        return [dict(fs) for fs in self.edge_sets.get((u, v), ())]
+
+
+def expr_paths_keys(e):
+    """the ("val", path) keys an expression reads (to refuse `x = f(x)` self-references)"""
+    out = set()
+    for p in expr_paths(e):
+        out.add(("val", p))
+    return out
